@@ -295,6 +295,13 @@ def check_loaded(cfg, tables, rules=None):
             us = [os.path.normpath(f) for f in t.get("unicode_short_files") or []]
             if want_u and us and os.path.normpath(want_u) not in us:
                 out.append(("wrong-file", "%s:unicode.yaml" % table, "Unicode table of %s was loaded from %s, not from %s" % (table, [rel(u) for u in us[:3]], rel(want_u))))
+            if table == "Braille":
+                want_f = os.path.join(bdir, "unicode-full.yaml") if os.path.isdir(bdir) else None
+            else:
+                want_f = expected_file(tag, "unicode-full.yaml", rules)
+            fs = [os.path.normpath(f) for f in t.get("unicode_full_files") or []]
+            if want_f and fs and os.path.normpath(want_f) not in fs:
+                out.append(("wrong-file", "%s:unicode-full.yaml" % table, "full Unicode table of %s was loaded from %s, not from %s" % (table, [rel(u) for u in fs[:3]], rel(want_f))))
             ds = [os.path.normpath(f) for f in t.get("definitions_files") or []]
             if want_d and ds and os.path.normpath(want_d) not in ds:
                 out.append(("wrong-file", "%s:definitions.yaml" % table, "definitions of %s were loaded from %s, not from %s" % (table, [rel(u) for u in ds[:3]], rel(want_d))))
@@ -410,6 +417,8 @@ def shard(spec):
             run_fallback(st, unit, fixed, seen_pre)
         elif unit["kind"] == "braille":
             run_braille(st, unit, fixed, harvested, seen_pre, deadline)
+        elif unit["kind"] == "switch":
+            run_switch(st, unit, seen_pre)
     return st.to_dict()
 
 
@@ -695,6 +704,266 @@ def run_fallback(st, unit, fixed, seen_pre):
         s2.close()
 
 
+# ---------------------------------------------------------------------------------------------------------------------
+# selecting a configuration by switching inside a live session
+# ---------------------------------------------------------------------------------------------------------------------
+SWITCH_GETTERS = ["speech", "overview", "braille", "nav:ZoomIn", "nav:ReadCurrent"]
+SWITCH_FIXED = ["<math><mfrac><mrow><mi>x</mi><mo>+</mo><mn>1</mn></mrow><mn>2</mn></mfrac></math>",
+                "<math><msqrt><mi>b</mi></msqrt><mo>&#x2264;</mo><msup><mi>A</mi><mn>2</mn></msup></math>",
+                "<math><mrow><mo>(</mo><mtable><mtr><mtd><mi>a</mi></mtd><mtd><mn>1</mn></mtd></mtr></mtable><mo>)</mo></mrow></math>",
+                "<math><mrow><mi>sin</mi><mo>&#x2061;</mo><mi>&#x3B8;</mi><mo>=</mo><mn>0.5</mn></mrow></math>"]
+_FULL_ONLY = {}
+
+
+def full_only_chars(kind, name):
+    """characters that live only in the full Unicode table of a language ('lang', tag) or of a braille code ('braille', code): defined in
+    unicode-full.yaml, not in unicode.yaml (read from the tree: workload side)"""
+    from . import c05_chars as cc
+    key = (kind, name)
+    if key not in _FULL_ONLY:
+        if kind == "lang":
+            tc = cc.table_chars(name)
+            short, full = set(tc["short"]), tc["full"]
+        else:
+            d = os.path.join(core.RULES, "Braille", name)
+            short = set(cc.file_chars(os.path.join(d, "unicode.yaml")))
+            full = cc.file_chars(os.path.join(d, "unicode-full.yaml"))
+        seen, out = set(), []
+        for c in full:
+            if c not in short and c not in seen and cc.usable(c) and not c.isspace() and c not in "<&" and 0x2000 <= ord(c) < 0x3000:
+                seen.add(c)
+                out.append(c)
+        _FULL_ONLY[key] = out
+    return _FULL_ONLY[key]
+
+
+def switch_probes(cfg, rng):
+    """expressions for one step: characters only in the full table of the step's language, characters only in the full table of its braille
+    code (alone and between operands), and a few ordinary expressions"""
+    out = []
+    lang_chars = full_only_chars("lang", cfg["lang"])
+    code_chars = full_only_chars("braille", cfg["braille"])
+    picks = []
+    for pool, n in ((lang_chars, 5), (code_chars, 5)):
+        if pool:
+            picks += rng.sample(pool, min(n, len(pool)))
+    if "\u2259" not in picks:
+        picks.append("\u2259")
+    for i, c in enumerate(picks):
+        out.append("<math><mo>%s</mo></math>" % c if i % 2 else "<math><mrow><mi>a</mi><mo>%s</mo><mi>b</mi></mrow></math>" % c)
+    out += SWITCH_FIXED
+    return out
+
+
+def switch_ops(xml):
+    return [("set_mathml", xml), ("get_spoken_text",), ("get_overview_text",), ("get_braille", ""), ("do_navigate_command", "ZoomIn"), ("do_navigate_command", "ReadCurrent")]
+
+
+SWITCH_NOPS = 6
+
+
+def select_ops(cfg):
+    """the preferences that select a configuration, in the order a program sets them"""
+    p = prefs_for(cfg)
+    p.pop("TTS", None)
+    return [("set_preference", k, v) for k, v in p.items()]
+
+
+def switch_compare(probes, got, ref):
+    """[(getter, probe index, detail)] where the switched session and the fresh session disagree"""
+    out = []
+    for i, xml in enumerate(probes):
+        a = got[i * SWITCH_NOPS:(i + 1) * SWITCH_NOPS]
+        b = ref[i * SWITCH_NOPS:(i + 1) * SWITCH_NOPS]
+        if a[0]["r"] != "ok" and b[0]["r"] != "ok":
+            continue
+        for g, x, y in zip(SWITCH_GETTERS, a[1:], b[1:]):
+            vx = x.get("v") if x["r"] == "ok" else error_root(x)
+            vy = y.get("v") if y["r"] == "ok" else error_root(y)
+            if x["r"] != y["r"] or vx != vy:
+                out.append((g.split(":")[0], i, "%s of %s: after switching %s %r, in a fresh session %s %r" % (g, xml, x["r"], str(vx)[:120], y["r"], str(vy)[:120])))
+                break
+    return out
+
+
+def run_chain(d, sname, steps, probe_lists, st=None):
+    """run the whole chain in ONE session thread of driver d; returns per step (set_preference results, getter results) or None if the driver died"""
+    out = []
+    ops0 = [("set_rules_dir", core.RULES), ("set_preference", "TTS", "None")]
+    r = d.batch(ops0, s=sname)
+    if any(x["r"] != "ok" for x in r):
+        raise core.Inconclusive("switch session init failed: %s" % r)
+    for cfg, probes in zip(steps, probe_lists):
+        sel = select_ops(cfg)
+        ops = list(sel)
+        for xml in probes:
+            ops += switch_ops(xml)
+        ops.append(("loaded_files",))
+        res = d.batch(ops, s=sname, timeout=120)
+        out.append((res[:len(sel)], res[len(sel):-1], res[-1]))
+    return out
+
+
+def fresh_reference(d, cfg, probes):
+    ops = core.init_ops(prefs_for(cfg))
+    n0 = len(ops)
+    for xml in probes:
+        ops += switch_ops(xml)
+    res = d.fresh(ops, timeout=120)
+    return res[:n0], res[n0:]
+
+
+def probe_class(cfg, xml):
+    m = re.search(r"<mo>(.)</mo>", xml)
+    if m and xml not in SWITCH_FIXED:
+        c = m.group(1)
+        if c in full_only_chars("lang", cfg["lang"]) or c in full_only_chars("braille", cfg["braille"]):
+            return "full-table-character"
+        return "character"
+    return "expression"
+
+
+def run_switch(st, unit, seen_pre):
+    rng = random.Random(unit["seed"])
+    steps = unit["steps"]
+    probe_lists = [switch_probes(c, rng) for c in steps]
+    d = core.Driver("native")
+    try:
+        try:
+            chain = run_chain(d, "sw", steps, probe_lists, st)
+        except (core.DriverDied, core.DriverTimeout):
+            st.inconclusive += 1
+            st.count("driver_died_in_switch_chain")
+            return
+        prev = None
+        for i, (cfg, probes, (sel_res, got, lf)) in enumerate(zip(steps, probe_lists, chain)):
+            name = "%s/%s+%s" % (cfg["lang"], cfg["style"], cfg["braille"])
+            st.add("switch_targets", name)
+            if prev is not None:
+                st.add("switch_language_pairs", "%s->%s" % (prev["lang"], cfg["lang"]))
+                st.add("switch_braille_pairs", "%s->%s" % (prev["braille"], cfg["braille"]))
+            problems = []
+            for op, r in zip(select_ops(cfg), sel_res):
+                st.evaluations += 1
+                if r["r"] != "ok":
+                    problems.append(("switch-set-preference-fails", "%s|%s" % (op[1], re.sub(r"(/[^ :]*)+/", "…/", error_root(r))), "%s -> %s" % (op, (r.get("e") or str(r.get("p")))[:300])))
+            try:
+                ref_sel, ref = fresh_reference(d, cfg, probes)
+            except (core.DriverDied, core.DriverTimeout):
+                st.inconclusive += 1
+                st.count("driver_died_in_fresh_reference")
+                return
+            if any(r["r"] != "ok" for r in ref_sel):
+                st.count("switch_reference_not_selectable")       # judged by the configuration phase
+                prev = cfg
+                continue
+            diffs = switch_compare(probes, got, ref)
+            st.evaluations += len(probes) * (SWITCH_NOPS - 1)
+            st.count("switch_steps")
+            st.count("switch_getter_comparisons", len(probes) * (SWITCH_NOPS - 1))
+            if i > 0:
+                st.nontrivial.add(core.h16("switch|%s|%s|%d" % (prev and prev["lang"] + prev["braille"], name, unit["seed"] % 1000)))
+            for g, idx, detail in diffs:
+                problems.append(("switch-differs", "%s|%s" % (g, probe_class(cfg, probes[idx])), detail))
+            if lf["r"] == "ok":
+                st.count("loaded_files_checks")
+                for kind, key, detail in check_loaded(cfg, lf["v"]):
+                    st.evaluations += 1
+                    problems.append(("switch-" + kind, key, detail))
+            for kind, key, detail in problems:
+                st.count("raw_" + kind)
+                if kind == "switch-wrong-file" and key.startswith("Braille") and cfg["braille"] == "ASCIIMath-fi":
+                    kind, who = "wrong-file", "braille=ASCIIMath-fi"          # the known dead directory, not an effect of switching
+                else:
+                    who = "switched"
+                pre = (kind, key, who)
+                if pre in seen_pre:
+                    continue
+                seen_pre.add(pre)
+                # shortest history: the step before and this one, else the whole chain up to here
+                w_steps = steps[:i + 1]
+                w_probes = probe_lists[:i + 1]
+                if i > 1 and kind != "wrong-file":
+                    short = switch_witness_fails(d, [steps[i - 1], cfg], [probe_lists[i - 1], probes], kind, key)
+                    if short:
+                        w_steps, w_probes = [steps[i - 1], cfg], [probe_lists[i - 1], probes]
+                st.violations.append(core.violation(kind, "%s | %s | %s" % (kind, key, who), {"switch": {"steps": w_steps, "probes": w_probes}},
+                                                    "history %s | %s" % (" -> ".join("%s/%s+%s" % (c["lang"], c["style"], c["braille"]) for c in w_steps), detail[:500])))
+            prev = cfg
+    finally:
+        d.close()
+
+
+_SW = [0]
+
+
+def switch_problems(d, steps, probe_lists):
+    """problems of the LAST step of a chain run in a new session thread of d: [(kind, key, detail)]"""
+    _SW[0] += 1
+    chain = run_chain(d, "swr%d" % _SW[0], steps, probe_lists)
+    cfg, probes = steps[-1], probe_lists[-1]
+    sel_res, got, lf = chain[-1]
+    out = []
+    for op, r in zip(select_ops(cfg), sel_res):
+        if r["r"] != "ok":
+            out.append(("switch-set-preference-fails", "%s|%s" % (op[1], re.sub(r"(/[^ :]*)+/", "…/", error_root(r))), str(r)[:300]))
+    ref_sel, ref = fresh_reference(d, cfg, probes)
+    if all(r["r"] == "ok" for r in ref_sel):
+        for g, idx, detail in switch_compare(probes, got, ref):
+            out.append(("switch-differs", "%s|%s" % (g, probe_class(cfg, probes[idx])), detail))
+    if lf["r"] == "ok":
+        for kind, key, detail in check_loaded(cfg, lf["v"]):
+            if key.startswith("Braille") and cfg["braille"] == "ASCIIMath-fi":
+                out.append(("wrong-file", key, detail))
+            else:
+                out.append(("switch-" + kind, key, detail))
+    try:
+        d.call("end_session", s="swr%d" % _SW[0])
+    except Exception:
+        pass
+    return out
+
+
+def switch_witness_fails(d, steps, probe_lists, kind, key):
+    try:
+        return any(k == kind and kk == key for k, kk, _ in switch_problems(d, steps, probe_lists))
+    except (core.DriverDied, core.DriverTimeout, core.Inconclusive):
+        return False
+
+
+def switch_chains(seed, n_chains, length):
+    """chains of configurations: every (language tag, style) and every braille code is a switch TARGET in every chain block, each time after a
+    different predecessor (seeded permutations)"""
+    rng = random.Random(core.sub_seed(seed, PROP, "switch"))
+    speech = []
+    for tag, _ in language_tags():
+        if tag.split("-")[0] in TEST_LANGUAGES:
+            continue
+        for style in own_styles(tag):
+            speech.append((tag, style))
+    codes = braille_dirs()
+    chains = []
+    while len(chains) < n_chains:
+        sp = list(speech)
+        rng.shuffle(sp)
+        cd = []
+        while len(cd) < len(sp):
+            c = list(codes)
+            rng.shuffle(c)
+            cd += c
+        # never the same language / code twice in a row: a step must really switch
+        steps = []
+        for (tag, style), code in zip(sp, cd):
+            if steps and steps[-1]["braille"] == code:
+                code = next(c for c in codes if c != code and c != steps[-1]["braille"])
+            steps.append({"lang": tag, "style": style, "verbosity": rng.choice(VERBOSITIES), "braille": code})
+        for off in range(0, len(steps), length):
+            part = steps[off:off + length]
+            if len(part) >= 2 and len(chains) < n_chains:
+                chains.append(part)
+    return chains
+
+
 def pred_char_not_in_braille_tables(v, params):
     """Known finding C15-braille-empty-undefined-char: the witness is a single token and none of its characters is defined in the braille
     code's unicode.yaml / unicode-full.yaml (read from the tree; for a code with a '-' also the directory the library really loads)"""
@@ -719,6 +988,13 @@ core.PREDICATES["c15_char_not_in_braille_tables"] = pred_char_not_in_braille_tab
 # replay
 # ---------------------------------------------------------------------------------------------------------------------
 def replay(w):
+    if w.get("switch"):
+        out = []
+        with core.Driver("native") as d:
+            for kind, key, detail in switch_problems(d, w["switch"]["steps"], w["switch"]["probes"]):
+                who = "braille=ASCIIMath-fi" if kind == "wrong-file" else "switched"
+                out.append(core.violation(kind, "%s | %s | %s" % (kind, key, who), w, detail[:600]))
+        return out
     cfg = dict(w["cfg"])
     tree = gen.from_xml(w["mathml"])
     st = core.Stats()
@@ -769,6 +1045,9 @@ def run(tier, seed):
             fallbacks.append((tag, "en"))
     for tag, base in fallbacks:
         units.append({"kind": "fallback", "tag": tag, "base": base})
+    chains = switch_chains(seed, 16 if quick else 160, 5)
+    for i, steps in enumerate(chains):
+        units.append({"kind": "switch", "steps": steps, "seed": core.sub_seed(seed, PROP, "sw", i)})
     rng = random.Random(core.sub_seed(seed, PROP, "order"))
     rng.shuffle(units)
     nsh = core.NPROC
@@ -797,6 +1076,7 @@ def run(tier, seed):
         cov[f] = {"tags": len(tags), "matched": len(hit), "unreached": sorted(tags - hit)}
     fixed = corpus.fixed_trees()
     extra = {"configurations_total": len(cfgs), "braille_codes_total": len(braille_dirs()), "fallback_cases": ["%s->%s" % fb for fb in fallbacks],
+             "switch_chains": len(chains),
              "excluded_configurations": ["Language=%s (fixture of the repository's preference tests)" % t for t, _ in language_tags() if t.split("-")[0] in TEST_LANGUAGES],
              "corpus": {"fixed": len(fixed), "harvested_from_tests": len(corpus.harvest()), "element_kinds_in_fixed_list": len(corpus.element_kinds_in(fixed)),
                         "element_kinds_missing_from_fixed_list": sorted(set(corpus.ELEMENT_KINDS) - corpus.element_kinds_in(fixed))},
@@ -810,6 +1090,8 @@ def run(tier, seed):
         missing.append("configurations not run: %s" % not_run[:6])
     if set(braille_dirs()) - stats.sets.get("braille_codes_full_corpus", set()) - set(x[8:] for x in unselectable if x.startswith("braille:")):
         missing.append("braille codes not run: %s" % sorted(set(braille_dirs()) - stats.sets.get("braille_codes_full_corpus", set())))
+    if stats.counters.get("switch_steps", 0) < 3 * len(chains):
+        missing.append("only %d switch steps judged" % stats.counters.get("switch_steps", 0))
     if stats.counters.get("loaded_files_checks", 0) < len(cfgs) // 2:
         missing.append("loaded_files hook observed only %d times" % stats.counters.get("loaded_files_checks", 0))
     if missing and not errors:
